@@ -1027,7 +1027,7 @@ func (n *Import) String() string {
 	}
 	s.WriteString(strconv.Quote(n.Path))
 	if n.For != nil {
-		s.WriteString("for ")
+		s.WriteString(" for ")
 		for i, ident := range n.For {
 			if i > 0 {
 				s.WriteString(", ")
